@@ -94,7 +94,7 @@ fn check_inner(c: &Case) -> Vec<(String, String)> {
     let mut queued = 0usize;
     let mut released = 0usize;
     let mut n = 0usize;
-    let wait_enter = |entered: &mut Vec<String>| -> bool { match erx.recv_timeout(Duration::from_secs(3)) { Ok(m) => { entered.push(m); true } Err(_) => false } };
+    let wait_enter = |entered: &mut Vec<String>| -> bool { match erx.recv_timeout(Duration::from_secs(10)) { Ok(m) => { entered.push(m); true } Err(_) => false } };
     for (op, h) in c.ops.iter() {
         match op {
             'e' => {
@@ -102,7 +102,7 @@ fn check_inner(c: &Case) -> Vec<(String, String)> {
                 let hd = match handles.get(*h).and_then(|x| x.as_ref()) { Some(x) => x, None => continue };
                 let t0 = std::time::Instant::now();
                 let r = hd.emit(&m);
-                if t0.elapsed() > Duration::from_secs(1) { fails.push(("C10".into(), format!("emit of {} took {:?}: it waited for the wrapped sink", m, t0.elapsed()))); }
+                if t0.elapsed() > Duration::from_secs(5) { fails.push(("C10".into(), format!("emit of {} took {:?}: it waited for the wrapped sink", m, t0.elapsed()))); }
                 let room = c.cap.map_or(true, |cap| queued < cap);
                 match r {
                     Ok(len) => {
@@ -144,9 +144,9 @@ fn check_inner(c: &Case) -> Vec<(String, String)> {
     // shutdown: drop every handle, open all gates, expect everything delivered and the wrapped sink dropped
     let t0 = std::time::Instant::now();
     handles.clear();
-    if t0.elapsed() > Duration::from_secs(1) { fails.push(("C09".into(), format!("dropping the handles took {:?}: drop must never block", t0.elapsed()))); }
+    if t0.elapsed() > Duration::from_secs(5) { fails.push(("C09".into(), format!("dropping the handles took {:?}: drop must never block", t0.elapsed()))); }
     for _ in 0..(accepted.len() + 2) { let _ = gtx.send(()); }
-    let deadline = std::time::Instant::now() + Duration::from_secs(4);
+    let deadline = std::time::Instant::now() + Duration::from_secs(12);
     let mut wrapped_dropped = false;
     while std::time::Instant::now() < deadline {
         while let Ok(m) = erx.try_recv() { entered.push(m); }
@@ -160,7 +160,7 @@ fn check_inner(c: &Case) -> Vec<(String, String)> {
         if !wrapped_dropped || entered.len() < accepted.len() { fails.push(("C09".into(), format!("after the last drop only {} of {} accepted metrics were delivered", entered.len(), accepted.len()))); }
         if entered.len() < accepted.len() && p != "C08" { fails.push(("C08".into(), format!("accepted {:?}, delivered {:?}", accepted, entered))); }
     }
-    if !wrapped_dropped { fails.push(("C09".into(), "after the last handle was dropped and every queued metric released, the wrapped sink was not dropped within 4 s (the background thread did not terminate)".into())); }
+    if !wrapped_dropped { fails.push(("C09".into(), "after the last handle was dropped and every queued metric released, the wrapped sink was not dropped within 12 s (the background thread did not terminate)".into())); }
     let errs = c.outs.iter().take(entered.len()).filter(|o| **o == 'e').count();
     let got = handled.lock().unwrap().len();
     if got != errs { fails.push(("C16".into(), format!("the wrapped sink failed {} time(s) but the error handler was invoked {} time(s)", errs, got))); }
